@@ -174,7 +174,8 @@ def valid_case(draw, tier="quick"):
             lo_c = draw(st.sampled_from([-11644473600, -11644473600, 253402214400]))
             if hi_c is not None and hi_c < lo_c:
                 hi_c = lo_c
-        extra = {"far_bounds": True, "bound_unit": "s"}
+        # (the other bound in the unit of the data - a span of mixed units - or everything in seconds)
+        extra = {"far_bounds": True, "bound_unit": draw(st.sampled_from(["s", "mixed", "mixed"]))}
     elif kind == "dt" and draw(st.integers(0, 2)) == 0:
         # bounds finer than the data: whole-second instants in a datetime64[s] array, bounds on half seconds
         unit = "s"
@@ -244,6 +245,8 @@ def _valid_inputs(case):
             if float(v) != int(v):
                 return np.datetime64(int(round(float(v) * 1000)), "ms")
             bu = unit if case.get("bound_unit", "same") == "same" else "s"
+            if case.get("bound_unit") == "mixed":
+                bu = "s" if abs(v) > 9e9 else unit
             return np.datetime64(int(v), "s").astype(f"datetime64[{bu}]")
     mc = case.get("mask_carrier", "none")
     if mc != "none":
